@@ -326,6 +326,65 @@ def r18_8(progK):
     return r
 
 
+def r18_9(progK):
+    """The walkers over an object set's constraint tree agree on what a leaf is.  In asn1fix_cws.c the functions that are
+    handed the per-object callback (`process`) form one visitor; an element kind (ACT_*) that one of them passes to the
+    callback must reach the callback (or a call that passes the callback on) from the `case` of every other one that
+    switches on the kind.  A `case ACT_EL_VALUE: return 0;` next to a union walker that feeds ACT_EL_VALUE elements to
+    the callback makes a set of a *single* object an empty table."""
+    r = Rule("R18.9", "object-set walkers sharing the per-object callback hand the same element kinds to it", floor=1)
+    fam = []
+    for f in progK.funcs.values():
+        if not f.relfile.endswith("asn1fix_cws.c"):
+            continue
+        cbs = [p["id"] for p in f.params if "(*)" in p["type"]]
+        if cbs:
+            fam.append((f, set(cbs)))
+    if not fam:
+        raise AnalysisBroken("no callback-taking walker found in asn1fix_cws.c")
+
+    def through(e, cbs):
+        ct = e.get("callee_tree")
+        if ct is not None and is_var(ct) and strip_casts(ct)[1] in cbs:
+            return True
+        return any(is_var(a.get("tree")) and strip_casts(a["tree"])[1] in cbs for a in e.get("args", []))
+    kinds = set()
+    for f, cbs in fam:
+        dom = f.dominators()
+        for b, i, e in f.calls():
+            ct = e.get("callee_tree")
+            if not (ct is not None and is_var(ct) and strip_casts(ct)[1] in cbs):
+                continue
+            for d in dom.get(b.id, ()):
+                tb = f.blocks[d]
+                if tb.term and "cond" in tb.term:
+                    for n in walk(tb.term["cond"].get("full_tree") or tb.term["cond"]["tree"]):
+                        if n[0] == "enum" and n[1].startswith("ACT_") and any(x[0] == "bin" and x[1] == "==" and any(y is n or y == n for y in walk(x)) for x in walk(tb.term["cond"].get("full_tree") or tb.term["cond"]["tree"])):
+                            kinds.add(n[1])
+                lab = tb.label or {}
+                if lab.get("kind") == "case" and str(lab.get("text", "")).startswith("ACT_"):
+                    kinds.add(lab["text"])
+    r.note("element kinds handed to the callback somewhere: %s" % sorted(kinds))
+    for f, cbs in sorted(fam, key=lambda x: x[0].name):
+        for b in f.blocks.values():
+            if not (b.term and b.term.get("kind") == "SwitchStmt"):
+                continue
+            for s_ in b.succs():
+                lab = f.blocks[s_].label or {}
+                if lab.get("kind") != "case" or lab.get("text") not in kinds:
+                    continue
+                reach = f.reachable_from([s_])
+                hit = any(through(e, cbs) for bid in reach for e in f.blocks[bid].ev if e["k"] == "call")
+                key = "case %s" % lab["text"]
+                line = (f.blocks[s_].ev[0].get("line") if f.blocks[s_].ev else None) or b.term.get("line")
+                if hit:
+                    r.ok(f, key, "the callback (or a call passing it on) is reachable from this case", line)
+                else:
+                    r.bad(f, key, "elements of kind %s are fed to the per-object callback by a sibling walker, but this case returns without it: "
+                                  "an object set consisting of one such element yields an empty table" % lab["text"], line)
+    return r
+
+
 def run(ctx):
     from . import c13
     # R18.4: the holder and the selected alternative are members like any other: their storage is interpreted according to
@@ -343,7 +402,7 @@ def run(ctx):
     from . import c10
     r7 = c10.r10_10(ctx.prog("K"), load_tables("c10"), rid="R18.7", floor=8,
                     only=lambda f: "ioc" in f.name.lower() or "type_selector" in f.name or "_ioc" in f.relfile)
-    return run_config(ctx.prog("S"), "default") + [r18_2(ctx.prog("K")), r18_3(ctx.prog("S")), r4, r5, r6, r7, r18_8(ctx.prog("K"))]
+    return run_config(ctx.prog("S"), "default") + [r18_2(ctx.prog("K")), r18_3(ctx.prog("S")), r4, r5, r6, r7, r18_8(ctx.prog("K")), r18_9(ctx.prog("K"))]
 
 
 def thorough(ctx):
